@@ -34,6 +34,7 @@ KERNELS = {
     "multitask": {"k": "multitask", "tasks": 2, "rank": 1},
     "rbfgrad": {"k": "rbfgrad"},
     "lcm": {"k": "lcm"},
+    "cylindrical": {"k": "cylindrical"},
     "rbfgrad_ard": {"k": "gradk", "cls": "RBFKernelGrad", "ard": True},
     "m52grad_ard": {"k": "gradk", "cls": "Matern52KernelGrad", "ard": True},
     "rbfgradgrad_ard": {"k": "gradk", "cls": "RBFKernelGradGrad", "ard": True},
@@ -61,6 +62,8 @@ def _build(name, pb):
         return K.MultitaskKernel(K.RBFKernel(batch_shape=bs), num_tasks=spec["tasks"], rank=spec["rank"], batch_shape=bs)
     if spec["k"] == "rbfgrad":
         return K.RBFKernelGrad(batch_shape=bs)
+    if spec["k"] == "cylindrical":
+        return K.ScaleKernel(K.CylindricalKernel(3, K.MaternKernel(nu=2.5, batch_shape=bs), batch_shape=bs), batch_shape=bs)
     if spec["k"] == "gradk":
         kw = {"power": 2} if spec["cls"] == "PolynomialKernelGrad" else {}
         if spec["ard"]:
@@ -146,6 +149,12 @@ def _data(case, g):
     xb = case["xbatch"]
     x1 = util.randn(g, *xb, case["n1"], D_IN)
     x2 = util.randn(g, *case.get("xbatch2", xb), case["n2"], D_IN)
+    if case["kernel"] == "cylindrical":
+        # documented domain: the unit ball; one row is exactly the origin (the kernel treats it specially)
+        x1 = x1 / x1.norm(dim=-1, keepdim=True) * (0.1 + 0.8 * util.rand(g, *x1.shape[:-1], 1))
+        x2 = x2 / x2.norm(dim=-1, keepdim=True) * (0.1 + 0.8 * util.rand(g, *x2.shape[:-1], 1))
+        x1[..., 0, :] = 0.0
+        x2[..., -1, :] = 0.0
     return x1, x2
 
 
@@ -250,7 +259,7 @@ def _relations(case, ctx, kern, x1, x2, D, g):
         ctx.close("diag_equals_diagonal", kern(x1).diagonal(dim1=-1, dim2=-2), torch.diagonal(Dxx, dim1=-2, dim2=-1), (1e-7, 1e-7), cls=cls + ":lazy.diagonal")
     except NotImplementedError:
         ctx.reject("diag not implemented")
-    if name not in GRADLIKE:
+    if name not in GRADLIKE and name != "cylindrical":
         x3 = x2[..., :1, :].expand(*x2.shape[:-2], n1, D_IN) + util.randn(g, *x2.shape[:-2], n1, D_IN)
         with S.lazily_evaluate_kernels(False):
             D13 = kern(x1, x3).to_dense()
